@@ -310,7 +310,7 @@ impl Exec {
                         };
                         match val {
                             Some((i, v)) => {
-                                if i != usize::MAX {
+                                {
                                     let mut b = vec![];
                                     flat_bytes(&v, &mut b);
                                     view.req_vals[p].push((i, b));
@@ -406,7 +406,7 @@ fn view_bytes(v: &View, p: usize, rel: u128) -> Vec<u8> {
     }
     out.push(0xEF);
     for (i, b) in &v.req_vals[p] {
-        if *i < 128 && (rel >> i) & 1 == 1 {
+        if *i < 128 && (rel >> *i) & 1 == 1 {
             out.extend_from_slice(&(*i as u16).to_le_bytes());
             out.extend_from_slice(b);
         }
@@ -736,6 +736,78 @@ fn chi2_two_sample(a: &[u32], b: &[u32]) -> (f64, usize) {
     (s, used)
 }
 
+/// Finds a GF(2)-affine relation (set of bit positions, position d = the constant 1) that holds
+/// for every sample of `x` but is violated by some sample of `y`.
+fn gf2_relation_broken(x: &[Vec<u8>], y: &[Vec<u8>], d: usize) -> Option<Vec<usize>> {
+    let cols = d + 1;
+    let words = (cols + 63) / 64;
+    let row_of = |s: &Vec<u8>| -> Vec<u64> {
+        let mut r = vec![0u64; words];
+        for i in 0..d {
+            if (s[i / 8] >> (i % 8)) & 1 == 1 {
+                r[i / 64] |= 1 << (i % 64);
+            }
+        }
+        r[d / 64] |= 1 << (d % 64);
+        r
+    };
+    let mut m: Vec<Vec<u64>> = x.iter().map(row_of).collect();
+    // row-reduce (RREF)
+    let mut pivot_of_col: Vec<Option<usize>> = vec![None; cols];
+    let mut rank = 0usize;
+    for c in 0..cols {
+        let mut p = None;
+        for r in rank..m.len() {
+            if (m[r][c / 64] >> (c % 64)) & 1 == 1 {
+                p = Some(r);
+                break;
+            }
+        }
+        if let Some(pr) = p {
+            m.swap(rank, pr);
+            let prow = m[rank].clone();
+            for r in 0..m.len() {
+                if r != rank && (m[r][c / 64] >> (c % 64)) & 1 == 1 {
+                    for w in 0..words {
+                        m[r][w] ^= prow[w];
+                    }
+                }
+            }
+            pivot_of_col[c] = Some(rank);
+            rank += 1;
+            if rank == m.len() {
+                break;
+            }
+        }
+    }
+    // nullspace basis: one vector per free column
+    let yrows: Vec<Vec<u64>> = y.iter().map(row_of).collect();
+    for f in 0..cols {
+        if pivot_of_col[f].is_some() {
+            continue;
+        }
+        let mut rel = vec![0u64; words];
+        rel[f / 64] |= 1 << (f % 64);
+        for c in 0..cols {
+            if let Some(pr) = pivot_of_col[c] {
+                if (m[pr][f / 64] >> (f % 64)) & 1 == 1 {
+                    rel[c / 64] |= 1 << (c % 64);
+                }
+            }
+        }
+        for yr in &yrows {
+            let mut par = 0u32;
+            for w in 0..words {
+                par ^= (yr[w] & rel[w]).count_ones() & 1;
+            }
+            if par & 1 == 1 {
+                return Some((0..cols).filter(|i| (rel[i / 64] >> (i % 64)) & 1 == 1).collect());
+            }
+        }
+    }
+    None
+}
+
 pub fn oracle_sampled(c: &Case, n_tapes: usize, max_nodes: usize) -> Outcome {
     let p = match prep(c) {
         Ok(p) => p,
@@ -820,6 +892,7 @@ pub fn oracle_sampled(c: &Case, n_tapes: usize, max_nodes: usize) -> Outcome {
     let pin_a = ideal_inputs(&p, &a, &mk_slots(&a));
     let pin_b = ideal_inputs(&p, &b, &mk_slots(&b));
     // collect views
+    let full: std::cell::RefCell<Vec<Vec<u8>>> = std::cell::RefCell::new(vec![]);
     let collect = |pin: &[Vec<Value>; 3], reqs: &mut Reqs, base: u64| -> Result<Vec<Vec<u8>>, String> {
         let mut out = Vec::with_capacity(n_tapes);
         for k in 0..n_tapes {
@@ -836,6 +909,12 @@ pub fn oracle_sampled(c: &Case, n_tapes: usize, max_nodes: usize) -> Outcome {
             if let Some(b) = &v.out[obs] {
                 bytes.extend_from_slice(b);
             }
+            // the observer's own oracle values (masks it can compute, its own random draws)
+            let mut own = vec![];
+            for (_, b) in &v.req_vals[obs] {
+                own.extend_from_slice(b);
+            }
+            full.borrow_mut().push(own);
             out.push(bytes);
         }
         Ok(out)
@@ -844,10 +923,12 @@ pub fn oracle_sampled(c: &Case, n_tapes: usize, max_nodes: usize) -> Outcome {
         Ok(v) => v,
         Err(u) => return Outcome::skip("unsupported").label(format!("unsupported:{}", u)),
     };
+    let own_a: Vec<Vec<u8>> = full.borrow_mut().drain(..).collect();
     let vb = match collect(&pin_b, &mut reqs, c.tape_seed ^ 0x5A5A_0000) {
         Ok(v) => v,
         Err(u) => return Outcome::skip("unsupported").label(format!("unsupported:{}", u)),
     };
+    let own_b: Vec<Vec<u8>> = full.borrow_mut().drain(..).collect();
     let len = va[0].len();
     if len == 0 {
         return Outcome::pass(false).label("empty-view");
@@ -864,6 +945,34 @@ pub fn oracle_sampled(c: &Case, n_tapes: usize, max_nodes: usize) -> Outcome {
                 "unmasked-byte",
                 format!("observer {}: view byte {} is tape-independent but depends on the other parties' inputs ({} vs {})", obs, i, va[0][i], vb[0][i]),
             );
+        }
+    }
+    // exact (up to 2^-100) test for GF(2)-affine leaks: every XOR-relation between bits of the
+    // view (messages, output, own mask values) that holds on ALL tapes for assignment A must hold
+    // on all tapes for assignment B and vice versa; this captures XOR-masked bit protocols
+    // completely and the least-significant-bit part of every additive relation (mask reuse,
+    // a leaked third share, ...)
+    let mut rel_bits = 0usize;
+    {
+        let join = |v: &Vec<Vec<u8>>, o: &Vec<Vec<u8>>| -> Vec<Vec<u8>> {
+            v.iter().zip(o.iter()).map(|(x, y)| { let mut z = x.clone(); z.extend_from_slice(y); z }).collect()
+        };
+        let fa = join(&va, &own_a);
+        let fb = join(&vb, &own_b);
+        let d = fa[0].len() * 8;
+        if fa.iter().chain(fb.iter()).all(|x| x.len() * 8 == d) && d + 128 <= fa.len().min(fb.len()) {
+            rel_bits = d;
+            for (name, x, y) in [("A", &fa, &fb), ("B", &fb, &fa)] {
+                if let Some(r) = gf2_relation_broken(x, y, d) {
+                    return Outcome::fail(
+                        "xor-relation",
+                        format!(
+                            "observer {}: an XOR relation over {} view bits (incl. constant) holds on every tape for assignment {} but not for the other one; bits {:?}",
+                            obs, r.len(), name, r.iter().take(24).collect::<Vec<_>>()
+                        ),
+                    );
+                }
+            }
         }
     }
     let cap = len.min(96);
@@ -929,6 +1038,7 @@ pub fn oracle_sampled(c: &Case, n_tapes: usize, max_nodes: usize) -> Outcome {
     let mut o = Outcome::pass(n_msgs >= 1)
         .label(format!("observer:{}", obs))
         .label(format!("view-bytes:{}", crate::c01::bucket(len)))
+        .label(format!("xor-relation-bits:{}", crate::c01::bucket(rel_bits)))
         .label(format!("compiled-nodes:{}", crate::c01::bucket(p.exec.nodes.len())))
         .label(if is_recipient { "observer-is-recipient" } else { "observer-not-recipient" });
     o = o.labels(p.labels.clone());
@@ -945,7 +1055,7 @@ pub fn run(env: &Env) {
     let nt = env.pick(2000usize, 5000usize);
     let mx = env.pick(700usize, 3000usize);
     env.set_shrink_iters(30);
-    env.campaign("sampled-byte-graphs", "two-sample tests on sampled tapes", env.n(96, 3000), arb_s_case, move |c| oracle_sampled(c, nt, mx));
+    env.campaign("sampled-byte-graphs", "two-sample tests on sampled tapes", env.n(400, 8000), arb_s_case, move |c| oracle_sampled(c, nt, mx));
 }
 
 pub fn replay(check: &str, case: J) -> Outcome {
